@@ -71,6 +71,8 @@ const (
 	outErr
 	outPanic
 	outPanicErr
+	outPanicRuntime
+	outPanicNil
 )
 
 type svc struct {
@@ -108,6 +110,11 @@ func (s *svc) Shutdown(ctx context.Context) error {
 		panic("service panics in Shutdown")
 	case outPanicErr:
 		panic(fmt.Errorf("service %d panics with an error", s.idx))
+	case outPanicRuntime:
+		var m map[string]int
+		m["nil map"] = s.idx // a runtime.Error
+	case outPanicNil:
+		panic(nil)
 	}
 
 	return nil
@@ -122,19 +129,23 @@ func runSignal(rc *kernel.RunCtx, k *kernel.Kernel) {
 	allNil := true
 	for i := range svcs {
 		s := &svc{k: k, idx: i, calls: &calls, timeout: timeout}
-		switch c := tp.Choose(8); {
+		switch c := tp.Choose(10); {
 		case c < 4:
 			s.outcome = outNil
 		case c < 6:
 			s.outcome = outErr
 		case c < 7:
 			s.outcome = outPanic
-		default:
+		case c < 8:
 			s.outcome = outPanicErr
+		case c < 9:
+			s.outcome = outPanicRuntime
+		default:
+			s.outcome = outPanicNil
 		}
 		if s.outcome != outNil {
 			allNil = false
-			rc.Stats.Fault([]string{"", "service-error", "service-panic", "service-panic"}[s.outcome])
+			rc.Stats.Fault([]string{"", "service-error", "service-panic", "service-panic", "service-panic-runtime-error", "service-panic-nil"}[s.outcome])
 		}
 		s.slow = tp.Choose(3)
 		if tp.Bool(1, 6) {
@@ -321,7 +332,7 @@ func taskState(t *kernel.Task) string {
 func outcomes(svcs []*svc) string {
 	s := ""
 	for _, x := range svcs {
-		s += []string{"nil", "error", "panic", "panic(error)"}[x.outcome]
+		s += []string{"nil", "error", "panic", "panic(error)", "panic(runtime error)", "panic(nil)"}[x.outcome]
 		if x.expire {
 			s += "+timeout"
 		}
@@ -386,6 +397,17 @@ type refreshSim struct {
 	onShutdown       bool
 	errSeq           int
 	finalHandled     bool
+
+	// zeroRace is the mode that constructs the one state in which the
+	// worker's select has two ready cases: Shutdown has returned while a
+	// refresh was in flight, the schedule then answers zero and the clock's
+	// timer is already due when it is created.  Which case the Go runtime
+	// picks is random; on code that gives the shutdown priority both choices
+	// end the loop silently, so the event log is the same either way.
+	zeroRace      bool
+	inRefresh     bool
+	fired         int
+	shutdownAfter int
 	errPool          []error
 	ctxSeq           int
 	simTime          time.Duration
@@ -439,6 +461,15 @@ func (c simClock) After(d time.Duration) <-chan time.Time {
 		t := &timer{ch: make(chan time.Time, 1), d: d, at: s.now.Add(d), id: len(s.timers) + 1}
 		s.timers = append(s.timers, t)
 		s.k.Logf("  After(", d.String(), ")")
+		if s.zeroRace && s.shutdownReturned && d == 0 && s.isLoop() {
+			// A zero delay: the timer is already due.
+			t.fired = true
+			t.id = -t.id
+			t.ch <- s.now
+			s.rc.Nondet = true
+			s.rc.Stats.Fault("timer-already-due-after-shutdown")
+			s.k.Logf("  timer already due: select with two ready cases")
+		}
 		if s.isLoop() {
 			switch {
 			case !s.haveUntil:
@@ -467,7 +498,11 @@ func (sc simSchedule) UntilNext(now time.Time) time.Duration {
 
 	return s.k.Ask("schedule.UntilNext", func() any {
 		var d time.Duration
-		switch s.tp.Choose(5) {
+		c := s.tp.Choose(5)
+		if s.zeroRace && s.shutdownReturned {
+			c = 0
+		}
+		switch c {
 		case 0:
 			d = 0
 		case 1:
@@ -535,7 +570,7 @@ func (r simRefresher) Refresh(ctx context.Context) error {
 			case s.curTimer == nil || !s.curTimer.fired:
 				s.fail("refresh-without-tick", "the worker refreshed although no schedule interval has elapsed")
 			case s.curTimer.firedAfterShutdown():
-				s.fail("refresh-after-shutdown", "the worker refreshed for a tick that fired after Shutdown was invoked")
+				s.fail("refresh-after-shutdown", "the worker refreshed for a tick that fired after Shutdown had returned")
 			}
 			s.refreshedSince++
 			if s.refreshedSince > 1 {
@@ -551,8 +586,12 @@ func (r simRefresher) Refresh(ctx context.Context) error {
 			}
 		}
 		// Outcome and slowness.
-		out := [2]any{0, error(nil)}
+		out := [3]any{0, error(nil), false}
 		out[0] = s.tp.Choose(4)
+		if byLoop {
+			s.inRefresh = true
+			out[2] = s.zeroRace && !s.shutdownReturned && s.fired >= s.shutdownAfter
+		}
 		if s.tp.Bool(1, 3) {
 			// Error values are created before the run: nothing allocated by
 			// the scheduler during the run may be shared with tasks.
@@ -568,10 +607,16 @@ func (r simRefresher) Refresh(ctx context.Context) error {
 		}
 
 		return out
-	}).([2]any)
+	}).([3]any)
 	for i := 0; i < res[0].(int); i++ {
 		s.k.Yield("refresher.slow")
 	}
+	if res[2].(bool) {
+		// zeroRace: this worker refresh stays in flight until Shutdown has
+		// returned.
+		s.k.YieldOpts(kernel.Opts{Site: "refresher.in-flight", Pred: func() bool { return s.shutdownReturned }})
+	}
+	s.k.Tell("refresher.done", func() { s.inRefresh = false })
 	err, _ := res[1].(error)
 
 	return err
@@ -608,13 +653,22 @@ func runRefresh(rc *kernel.RunCtx, k *kernel.Kernel) {
 	tp := rc.Tape
 	s := &refreshSim{k: k, rc: rc, tp: tp, now: time.Date(2025, 1, 1, 0, 0, 0, 0, time.UTC), made: map[*kernel.Task]madeCtx{}}
 	s.onShutdown = tp.Bool(1, 2)
-	s.startCtx = context.WithValue(context.Background(), ctxKey{}, &marker{id: -1})
+	if tp.Bool(1, 5) {
+		s.zeroRace = true
+		k.MuteAuto = true
+	}
+	// The context given to Start is cancelled at a drawn moment in some runs:
+	// that is not a shutdown, the worker has to go on refreshing.
+	startBase, cancelStart := context.WithCancel(context.Background())
+	defer cancelStart()
+	s.startCtx = context.WithValue(startBase, ctxKey{}, &marker{id: -1})
 	s.shutdownCtx = context.WithValue(context.Background(), ctxKey{}, &marker{id: -2})
 	for i := 0; i < 16; i++ {
 		s.errPool = append(s.errPool, fmt.Errorf("refresh error #%d", i))
 	}
 	maxTicks := tp.Range(0, 6)
 	shutdownAfter := tp.Choose(maxTicks + 1)
+	s.shutdownAfter = shutdownAfter
 	k.Logf("refresh: onShutdown=", btoa(s.onShutdown), " ticks=", kernel.Itoa(maxTicks), " shutdownAfter=", kernel.Itoa(shutdownAfter))
 
 	w := service.NewRefreshWorker(&service.RefreshWorkerConfig{
@@ -648,6 +702,7 @@ func runRefresh(rc *kernel.RunCtx, k *kernel.Kernel) {
 					t := pending()
 					t.fired = true
 					fired++
+					s.fired = fired
 					late := time.Duration(0)
 					if tp.Bool(1, 4) {
 						late = time.Duration(tp.Range(1, 90)) * time.Second
@@ -658,9 +713,11 @@ func runRefresh(rc *kernel.RunCtx, k *kernel.Kernel) {
 					}
 					s.now = s.now.Add(late)
 					s.simTime += t.d + late
-					if s.shutdownInvoked {
-						t.id = -t.id // fired after Shutdown was invoked
-						rc.Stats.Probe("tick-after-shutdown")
+					if s.shutdownReturned {
+						t.id = -t.id // fired after Shutdown has returned
+						rc.Stats.Probe("tick-after-shutdown-returned")
+					} else if s.shutdownInvoked {
+						rc.Stats.Probe("tick-while-shutdown-in-progress")
 					}
 					k.Logf("  fire timer ", t.d.String())
 
@@ -672,6 +729,25 @@ func runRefresh(rc *kernel.RunCtx, k *kernel.Kernel) {
 		}
 	})
 
+	if tp.Bool(1, 4) {
+		cancelAt := tp.Choose(maxTicks + 1)
+		k.Go("start-ctx-canceller", true, func() {
+			k.YieldOpts(kernel.Opts{
+				Site: "cancel-start-context",
+				Pred: func() bool { return fired >= cancelAt && s.loop != nil },
+				Post: func() {},
+				Act: func() any {
+					rc.Stats.Fault("start-context-cancelled")
+					k.Logf("  context given to Start cancelled")
+
+					return nil
+				},
+			})
+			cancelStart()
+			k.YieldOpts(kernel.Opts{Site: "canceller.done", Pred: func() bool { return false }})
+		})
+	}
+
 	k.Go("controller", false, func() {
 		k.Yield("start")
 		if err := w.Start(s.startCtx); err != nil {
@@ -681,7 +757,7 @@ func runRefresh(rc *kernel.RunCtx, k *kernel.Kernel) {
 		}
 		k.YieldOpts(kernel.Opts{
 			Site: "shutdown.when",
-			Pred: func() bool { return fired >= shutdownAfter },
+			Pred: func() bool { return fired >= shutdownAfter && (!s.zeroRace || s.inRefresh || fired >= maxTicks) },
 			Post: func() { shutdownRequested = true },
 		})
 		k.Ask("shutdown.invoke", func() any {
@@ -757,4 +833,13 @@ func (s *refreshSim) loopQuiet() bool { return s.loop == nil || !s.loop.IsParked
 // installHooks: the service package needs no hooks; the default slog logger
 // (used by RefreshWorker to report recovered panics, among them the
 // scheduler's own abort sentinel at the end of a run) is silenced.
-func installHooks() { slog.SetDefault(slog.New(slog.DiscardHandler)) }
+func installHooks() {
+	slog.SetDefault(slog.New(slog.DiscardHandler))
+	if overlayHooks != nil {
+		overlayHooks()
+	}
+}
+
+// overlayHooks is set by autoyield_test.go when the check is built with the
+// statement-level yield overlay.
+var overlayHooks func()
